@@ -389,7 +389,25 @@ def r2_slice_tiling(ctx, rule):
     site1 = "if len(cur_combo) != index:\n    section_list.append((password[0:index - len(cur_combo)], None))" in txt.replace('                        ', '    ').replace('                    ', '') \
         or 'section_list.append((password[0:index - len(cur_combo)], None))' in txt
     g1 = 'if len(cur_combo) != index:' in txt
-    mid = "section_list.append((''.join(cur_combo), 'K' + str(len(cur_combo))))" in txt
+    KPIECE = "section_list.append((''.join(cur_combo), 'K' + str(len(cur_combo))))"
+    mid = txt.count(KPIECE) == 2
+    # both emission sites: the statement after the prefix guard is the walk piece itself (a site that appends the prefix and not
+    # the walk drops the walk's characters from the parse - mutation sweep, third run)
+    mod_kw = ctx.repo.modules[qual.partition('::')[0]]
+    for g_ in [x for x in walk_local(fn) if isinstance(x, ast.If) and U(x.test) in ('len(cur_combo) != index', 'len(cur_combo) != len(password)')]:
+        par_ = mod_kw.parents.get(id(g_))
+        for fld in ('body', 'orelse'):
+            blk = getattr(par_, fld, None)
+            if isinstance(blk, list) and any(g_ is x for x in blk):
+                k_ = [i for i, x in enumerate(blk) if x is g_][0]
+                nxt = blk[k_ + 1] if k_ + 1 < len(blk) else None
+                is_emit = isinstance(nxt, ast.Expr) and isinstance(nxt.value, ast.Call) and isinstance(nxt.value.func, ast.Attribute) \
+                    and nxt.value.func.attr in ('append', 'extend') or isinstance(nxt, (ast.Assign, ast.AugAssign))
+                if not is_emit:
+                    ctx.bad(rule, qual, 'after the prefix guard `%s` comes `%s`, not the walk piece' % (U(g_.test), U(nxt)[:50] if nxt is not None else 'nothing'),
+                            'prefix, walk and rest must tile the password: the characters of the walk are emitted as the K piece right after the prefix',
+                            None, g_, firm=True)
+                    return
     rec = 'detect_keyboard_walk(password[index:])' in txt
     site2 = 'section_list.append((password[0:len(password) - len(cur_combo)], None))' in txt and 'if len(cur_combo) != len(password):' in txt
     whole = txt.count('section_list.append((password, None))') == 2
@@ -1143,6 +1161,94 @@ def r16_nonempty_is_not_long_enough(ctx, rule):
         ctx.ok(rule, 'lib_trainer/detection_rules/', 'no constant index is justified by a mere non-emptiness test (%d sites)' % n)
 
 
+def _run_scan_skeleton(fn, pred):
+    """The part two run detectors share: initial `is_run`, the scan loop up to the statement that fixes end_pos, and the slice that cuts
+    the run out.  Returned as a list of (label, text, node) with the class predicate blanked."""
+    def norm(x):
+        return U(x).replace('.%s()' % pred, '.isclass()')
+    out = []
+    for st in fn.body:
+        if isinstance(st, ast.Assign) and len(st.targets) == 1 and U(st.targets[0]) == 'is_run':
+            out.append(('initial is_run', norm(st), st))
+    loops = [st for st in fn.body if isinstance(st, ast.For)]
+    if len(loops) != 1:
+        return None
+    lp = loops[0]
+    out.append(('scan loop', 'for %s in %s' % (U(lp.target), norm(lp.iter)), lp))
+    if len(lp.body) != 2 or not all(isinstance(x, ast.If) for x in lp.body):
+        return None
+    first, second = lp.body
+    out.append(('run start test', norm(first.test), first.test))
+    for st in first.body:
+        out.append(('run start', norm(st), st))
+    out.append(('run end test', norm(second.test), second.test))
+    if len(second.body) != 1 or not isinstance(second.body[0], ast.If):
+        return None
+    inner = second.body[0]
+    out.append(('in-run test', norm(inner.test), inner.test))
+    seen_end = False
+    for st in inner.body:
+        if isinstance(st, ast.If) and any(isinstance(a, ast.Assign) and U(a.targets[0]) == 'end_pos' for a in st.body + st.orelse):
+            out.append(('end of run', norm(st), st))
+            seen_end = True
+            break
+        if isinstance(st, ast.If) and 'start_pos' in U(st.test):
+            out.append(('prefix guard', norm(st.test), st.test))
+    if not seen_end:
+        return None
+    cuts = [n for n in ast.walk(inner) if isinstance(n, ast.Subscript) and isinstance(n.slice, ast.Slice) and n.slice.lower is not None
+            and U(n.slice.lower) == 'start_pos']
+    if not cuts:
+        return None
+    out.append(('run slice', '[%s:%s]' % (U(cuts[0].slice.lower), U(cuts[0].slice.upper) if cuts[0].slice.upper is not None else ''), cuts[0]))
+    return out
+
+
+def _same_shape(a, b):
+    """two statements that differ only in constants / operators / identifiers"""
+    skip = (ast.operator, ast.cmpop, ast.unaryop, ast.boolop, ast.expr_context, ast.UnaryOp)     # a `not` / `-` more or less is an operator-level difference
+    ta = [type(n).__name__ for n in ast.walk(a) if not isinstance(n, skip)]
+    tb = [type(n).__name__ for n in ast.walk(b) if not isinstance(n, skip)]
+    return len(ta) == len(tb) and sum(x != y for x, y in zip(ta, tb)) <= 1
+
+
+def r21_run_scan_siblings(ctx, rule):
+    """detect_digits and detect_alpha find "a maximal run of characters of one class" with the same scan: they must agree on it.
+
+    Both walk the section once; a run starts at the first character of the class (`is_run` False until then), ends at the first character
+    that is not of the class or at the end of the string, `end_pos` is `pos` when the last character read still belongs to the run and
+    `pos - 1` otherwise, and the run is the slice [start_pos:end_pos + 1].  The two functions are siblings (Engler et al.: cross-check
+    implementations of one interface): with the class predicate blanked their skeletons are compared statement by statement.  A pair that
+    has the same shape and differs in a constant, an operator or a name is a violation at both sites (one of them is wrong - `end_pos = pos
+    + 1` puts two foreign characters into a digit segment, `is_run = True` cuts the run at -1); a skeleton that is not found, or differs in
+    more than that, is inconclusive.  (Mutation sweep, third run: ten single-token mutants of the two scans were silent.)"""
+    qa = DET + 'alpha_detection.py::detect_alpha'
+    qd = DET + 'digit_detection.py::detect_digits'
+    fa, fd = ctx.fn(qa), ctx.fn(qd)
+    ctx.stats['functions'].update({qa, qd})
+    sa_, sd_ = _run_scan_skeleton(fa, 'isalpha'), _run_scan_skeleton(fd, 'isdigit')
+    if sa_ is None or sd_ is None:
+        ctx.unk(rule, qa if sa_ is None else qd, 'the run scan is not of the shape this rule compares (one loop: start test, end test, end_pos by the last character)')
+        return
+    if [l for l, _, _ in sa_] != [l for l, _, _ in sd_]:
+        ctx.unk(rule, qd, 'the two run scans do not have the same steps: %s / %s' % ([l for l, _, _ in sa_], [l for l, _, _ in sd_]))
+        return
+    diff = [(la, ta, na, td, nd) for (la, ta, na), (_, td, nd) in zip(sa_, sd_) if ta != td]
+    if not diff:
+        ctx.ok(rule, qd, 'detect_alpha and detect_digits scan alike (%d steps compared; class predicate blanked)' % len(sa_),
+               {'steps': [t for _, t, _ in sd_]})
+        return
+    small = [d for d in diff if isinstance(d[2], ast.AST) and isinstance(d[4], ast.AST) and _same_shape(d[2], d[4])]
+    if len(diff) <= 2 and len(small) == len(diff):
+        for la, ta, na, td, nd in diff:
+            ctx.bad(rule, qd, '%s: detect_digits `%s`, detect_alpha `%s`' % (la, td.split('\n')[0][:60], ta.split('\n')[0][:60]),
+                    'both functions cut a maximal run of one character class out of a section; their scans differ in this step only, so '
+                    'one of them no longer finds the run (a segment with foreign characters, a run cut short, or a wrong length label)',
+                    {'alpha': ta, 'digits': td}, nd, firm=True)
+        return
+    ctx.unk(rule, qd, 'the two run scans differ in %d steps in a way this rule does not judge' % len(diff))
+
+
 def _shared_rule(mod, name, **kw):
     def run(ctx, rule):
         import importlib
@@ -1164,7 +1270,9 @@ def rules(tier):
             # mutation sweep: counters are exactly the tallies of the segments
             ('C05.R19', _shared_rule('c06', 'r21_unit_tallies')),
             # C05-eb: interesting_keyboard deletes a leading 'e' from the caller's run in place
-            ('C05.R20', _shared_rule('plumbing', 'read_only_helpers'))]
+            ('C05.R20', _shared_rule('plumbing', 'read_only_helpers')),
+            # mutation sweep (third run): single-token slips in the run scans of detect_digits / detect_alpha
+            ('C05.R21', r21_run_scan_siblings)]
 
 
 META = {
